@@ -19,6 +19,10 @@ def ctor_instances():
     for t in ('i32', 'u8'):
         for pat in all_patterns(4):
             for path in PATHS: out.append((t, t, pat, path))
+    r5 = random.Random(505)
+    for r in (5, 6):
+        for pat in r5.sample(all_patterns(r), 7) + [tuple([None] * r)]:
+            for path in PATHS: out.append(('i32', 'i32', pat, path))
     # static extents equal to the largest value of a narrow index type
     from vf.common import hi
     for t in ('u8', 'u16', 'u32', 'i8', 'i16'):
@@ -42,7 +46,21 @@ def pair_instances():
             r = len(a[1]); b = (rnd.choice(list(ITYPES)), rnd.choice(all_patterns(r)))
         else: b = rnd.choice(types)
         out.add((a, b))
-    return sorted(out, key=str)
+    res = sorted(out, key=str)
+    # higher ranks (4-7): the slot bookkeeping of the converting constructor and of operator== over many dynamic positions
+    r2 = random.Random(707); hi_ = []
+    for r in (4, 5, 6, 7):
+        pats = all_patterns(r)
+        for _ in range(9):
+            pa = r2.choice(pats); pb = r2.choice(pats + [tuple([None] * r)] * 8)
+            if r2.random() < 0.5: pa = tuple(x if r2.random() < 0.25 else None for x in pa)      # mostly dynamic target with a few statics
+            hi_.append(((r2.choice(['i32', 'u8', 'i64']), pa), (r2.choice(['i32', 'u16', 'i64']), pb)))
+        hi_.append((('i32', tuple([2] + [None] * (r - 1))), ('i32', tuple([None] * r))))
+        hi_.append((('i64', tuple([None, 3] + [None] * (r - 2))), ('i32', tuple([None] * r))))
+    seen = set(res)
+    for p in hi_:
+        if p not in seen: seen.add(p); res.append(p)
+    return res
 
 def ckey(i): return 'ext:%s:%s:%s:%s' % (i[0], i[1], pat_str(i[2]), i[3])
 def cline(i): return 'ext %s %s pat=%s k=%s' % (i[0], i[1], pat_str(i[2]), i[3])
